@@ -203,6 +203,26 @@ def run(ck: Check):
     jdis = c02.evaluate(ck, jcases, jreals, jstats, label="C04 (joined filters)")
     if jdis and not ck.failing:
         c02.directed_search(ck, [c for c in jcases if c.get("_mismatch")], jstats)
+    if jdis and not ck.failing:
+        # wider search after a break: more forests with 1-3 filters on any model, through the distinct-row oracle
+        more, more_reals = [], []
+        for i in range(150):
+            ms, tables = M.gen_forest(rng)
+            layer = M.build_layer(ms, tables)
+            for _ in range(2):
+                q = M.gen_query(rng, ms)
+                pool = [(m["name"], d["name"]) for m in ms for d in m["dims"]]
+                q["filters"] = []
+                for _ in range(rng.choice([1, 2, 3])):
+                    a, b = rng.choice(pool)
+                    dom = ["s1", "s2", "s3"] if b in ("sku", "dept") else ["a", "b", "c"]
+                    q["filters"].append(rng.choice([E.bin_("eq", E.col(f"{a}.{b}"), E.lit(rng.choice(dom))), E.in_(E.col(f"{a}.{b}"), rng.sample(dom, 2)),
+                                                    E.bin_("ne", E.col(f"{a}.{b}"), E.lit(rng.choice(dom))), E.isnull(E.col(f"{a}.{b}"), neg=True)]))
+                more_reals.append(M.run_real(layer, q))
+                more.append({"op": "c02", "models": M.lean_models(ms), "query": q, "tables": tables, "_ms": ms, "_meta": dict(M.GEN_META)})
+        c02.evaluate(ck, more, more_reals, jstats, label="C04 (joined filters, wider search)")
+        if not ck.failing:
+            c02.directed_search(ck, [c for c in more if c.get("_mismatch")], jstats)
     if jdis == 0:
         ck.obligation("correspondence C04: SQLGenerator vs genJoin on filters over joined models (structural + behavioural)", True, f"{len(jcases)} cases")
     stats["joined_cases"] = len(jcases)
